@@ -5,9 +5,10 @@
 // (Core jets): decoding must not panic, and whatever the commitment-time decoder accepts must re-encode to exactly the
 // input; an expression that decodes and has no repeated sub-expression must re-encode to the input as well.
 use crate::jet::Core;
-use crate::node::{CommitNode, ConstructNode};
+use crate::node::{CommitNode, ConstructNode, CoreConstructible, DisconnectConstructible, RedeemNode, WitnessConstructible};
 use crate::types;
-use crate::BitIter;
+use crate::{BitIter, FailEntropy, HasCmr, Value, Word};
+use std::sync::Arc;
 
 fn try_one(bytes: &[u8], fails: &mut Vec<String>) {
     let owned = bytes.to_vec();
@@ -40,18 +41,110 @@ fn try_one(bytes: &[u8], fails: &mut Vec<String>) {
     }
 }
 
+/// redeem-time decoder: program and witness must both re-encode to exactly the input
+fn try_redeem(prog: &[u8], wit: &[u8], fails: &mut Vec<String>) {
+    let (p, w) = (prog.to_vec(), wit.to_vec());
+    let res = std::panic::catch_unwind(move || {
+        match RedeemNode::decode::<_, _, Core>(BitIter::from(&p[..]), BitIter::from(&w[..])) {
+            Ok(prog) => Some(prog.to_vec_with_witness()),
+            Err(_) => None,
+        }
+    });
+    match res {
+        Err(_) => fails.push(format!("program {:02x?} witness {:02x?}: redeem-time decoding or re-encoding PANICS", prog, wit)),
+        Ok(Some((rp, rw))) if rp != prog || rw != wit => fails.push(format!(
+            "program {:02x?} witness {:02x?} is accepted by RedeemNode::decode, but re-encodes as program {:02x?} witness {:02x?}",
+            prog, wit, rp, rw
+        )),
+        _ => {}
+    }
+}
+
+/// encode then decode: expressions built with the constructors (every combinator, a fail node with non-symmetric
+/// entropy, words, a jet, hidden branches) must decode to an expression with the same root and the same bytes
+fn encode_then_decode(fails: &mut Vec<String>) {
+    types::Context::with_context(|ctx| {
+        type N<'b> = Arc<ConstructNode<'b>>;
+        let mut entropy = [0u8; 64];
+        for (i, b) in entropy.iter_mut().enumerate() {
+            *b = (i as u8).wrapping_mul(37).wrapping_add(1);
+        }
+        let leaves: Vec<(&str, N)> = vec![
+            ("iden", N::iden(&ctx)),
+            ("unit", N::unit(&ctx)),
+            ("fail", N::fail(&ctx, FailEntropy::from_byte_array(entropy))),
+            ("word8", N::const_word(&ctx, Word::u8(0xa5))),
+            ("word1", N::const_word(&ctx, Word::u1(1))),
+            ("word64", N::const_word(&ctx, Word::u64(0x0123_4567_89ab_cdef))),
+            ("jet", N::jet(&ctx, &Core::Add8)),
+            ("witness", N::witness(&ctx, None::<Value>)),
+        ];
+        let mut exprs: Vec<(String, N)> = leaves.iter().map(|(n, e)| (n.to_string(), Arc::clone(e))).collect();
+        for (n, e) in &leaves {
+            exprs.push((format!("injl {}", n), N::injl(e)));
+            exprs.push((format!("injr {}", n), N::injr(e)));
+            exprs.push((format!("take {}", n), N::take(e)));
+            exprs.push((format!("drop {}", n), N::drop_(e)));
+            if let Ok(d) = N::disconnect(e, &None) {
+                exprs.push((format!("disconnect {}", n), d));
+            }
+            if let Ok(a) = N::assertl(e, N::unit(&ctx).cmr()) {
+                exprs.push((format!("assertl {} #unit", n), a));
+            }
+            if let Ok(a) = N::assertr(N::iden(&ctx).cmr(), e) {
+                exprs.push((format!("assertr #iden {}", n), a));
+            }
+            for (m, f) in &leaves {
+                if let Ok(x) = N::comp(e, f) {
+                    exprs.push((format!("comp {} {}", n, m), x));
+                }
+                if let Ok(x) = N::pair(e, f) {
+                    exprs.push((format!("pair {} {}", n, m), x));
+                }
+                if let Ok(x) = N::case(e, f) {
+                    exprs.push((format!("case {} {}", n, m), x));
+                }
+            }
+        }
+        for (name, e) in exprs {
+            let bytes = e.to_vec_without_witness();
+            types::Context::with_context(|ctx2| match ConstructNode::decode::<_, Core>(&ctx2, BitIter::from(&bytes[..])) {
+                Ok(back) => {
+                    if back.cmr() != e.cmr() {
+                        fails.push(format!("expression `{}` encodes as {:02x?}, which decodes to an expression with root {} instead of {}", name, bytes, back.cmr(), e.cmr()));
+                    } else if back.to_vec_without_witness() != bytes {
+                        fails.push(format!("expression `{}` encodes as {:02x?} but re-encodes as {:02x?} after decoding", name, bytes, back.to_vec_without_witness()));
+                    }
+                }
+                Err(err) => fails.push(format!("expression `{}` encodes as {:02x?}, which does not decode: {}", name, bytes, err)),
+            });
+            if fails.len() >= 10 {
+                break;
+            }
+        }
+    });
+}
+
 #[test]
 fn c02_codec_replay() {
     std::panic::set_hook(Box::new(|_| {}));
     let mut fails = Vec::new();
+    encode_then_decode(&mut fails);
     for a in 0u32..256 {
         try_one(&[a as u8], &mut fails);
+        for w in [&[][..], &[0x00][..], &[0x80][..]] {
+            try_redeem(&[a as u8], w, &mut fails);
+        }
     }
     for x in 0u32..(1 << 16) {
         try_one(&[(x >> 8) as u8, x as u8], &mut fails);
+        for w in [&[][..], &[0x00][..], &[0x80][..]] {
+            try_redeem(&[(x >> 8) as u8, x as u8], w, &mut fails);
+        }
     }
     for x in 0u32..(1 << 24) {
         try_one(&[(x >> 16) as u8, (x >> 8) as u8, x as u8], &mut fails);
+        try_redeem(&[(x >> 16) as u8, (x >> 8) as u8, x as u8], &[], &mut fails);
         if fails.len() >= 10 {
             break;
         }
